@@ -67,6 +67,19 @@ Scribble(t, m) ==
        IF fd.ismap THEN [p |-> [e \in 1..Len(v.p) |-> <<v.p[e][1], ScribbleV(FieldOf(fd.msg, 2), v.p[e][2])>>]]
        ELSE ScribbleV(fd, v)>>]]
 
+\* What a reader that lacks the fields in del holds after decoding Encode(t, m): those fields as unknown records
+\* (after the unknown records m already had).  EvolutionLaw (MC_PbObject): decoding its re-encoding with the full schema gives m.
+RECURSIVE KeepFields(_, _, _), DelBytes(_, _, _, _)
+KeepFields(fs, del, i) == IF i > Len(fs) THEN <<>> ELSE (IF fs[i][1] \in del THEN <<>> ELSE <<fs[i]>>) \o KeepFields(fs, del, i + 1)
+DelBytes(t, fs, del, i) == IF i > Len(fs) THEN <<>>
+                           ELSE (IF fs[i][1] \in del THEN EncField(FieldOf(t, fs[i][1]), fs[i][2]) ELSE <<>>) \o DelBytes(t, fs, del, i + 1)
+SubView(t, m, del) == [f |-> KeepFields(m.f, del, 1), u |-> ParseU(DelBytes(t, m.f, del, 1), 1, <<>>) \o m.u]
+
+\* the derived (old) reader does not know the deleted fields, nor the extensions registered for the original type
+OldReaderHasUnknown(t, m, del) ==
+  \/ m.u # <<>>
+  \/ \E i \in 1..Len(m.f) : (\E k \in 1..Len(del) : del[k] = m.f[i][1]) \/ FieldOf(t, m.f[i][1]).ext
+
 MutOps == {"set", "clear", "mut", "app", "trunc", "lset", "mset", "mdel", "setu"}
 Limit(s) == IF s.limit = 0 THEN 10000 ELSE s.limit
 
@@ -106,6 +119,10 @@ Apply(t, objs, s0) ==
          IF Utf8OK(t, cur) /\ Utf8OK(t, objs[s.o2 + 1]) THEN [objs EXCEPT ![s.o3 + 1] = MergeMsg(t, cur, objs[s.o2 + 1])] ELSE objs
     [] s.op = "umerge" ->
          IF Utf8OK(t, objs[s.o2 + 1]) THEN [objs EXCEPT ![o] = MergeMsg(t, cur, objs[s.o2 + 1])] ELSE objs
+    [] s.op = "evo" ->
+         \* schema evolution: decode the encoding with a reader that lacks the fields in del, re-encode, decode with the full
+         \* schema: the same message as decoding directly (unknown fields carry the data through)
+         IF Utf8OK(t, cur) THEN [objs EXCEPT ![s.o2 + 1] = cur] ELSE objs
     [] s.op = "scribble" -> [objs EXCEPT ![o] = Scribble(t, cur)]
     [] OTHER -> objs      \* marshal, size, equal, checkinit: read-only
 
@@ -133,6 +150,11 @@ ResultOK(t, objs, s, ob) ==
     [] s.op = "rt" -> ob.r = (IF Utf8OK(t, cur) THEN "" ELSE "utf8")
     [] s.op = "cat" -> ob.r = (IF Utf8OK(t, cur) /\ Utf8OK(t, objs[s.o2 + 1]) THEN "" ELSE "utf8")
     [] s.op = "umerge" -> ob.r = (IF Utf8OK(t, objs[s.o2 + 1]) THEN "" ELSE "utf8")
+    [] s.op = "evo" ->
+         IF ~Utf8OK(t, cur) THEN ob.r[1] = "utf8"
+         ELSE /\ ob.r[1] = ""
+              /\ ob.r[2]                                                     \* DiscardUnknown leaves nothing unknown anywhere
+              /\ ob.r[3] = OldReaderHasUnknown(t, cur, s.del)                    \* the old reader keeps what it does not know
     [] s.op = "equal" -> ob.r = EqMsg(t, cur, objs[s.o2 + 1])
     [] s.op = "checkinit" -> ob.r = Initialized(t, cur)
     [] OTHER -> TRUE
